@@ -7,6 +7,43 @@ import Rtp.Pred.C19
 namespace Rtp.Props.C19
 open Rtp Rtp.Spec.VlaSpec Rtp.Model.Vla Rtp.Pred.C19
 
+/-- Marshal of a valid allocation returns exactly the bytes the specification prescribes —
+    in particular the buffer it sizes beforehand is filled completely (no surplus byte) and never
+    overrun (no panic). -/
+theorem c19_encode (v : VLA) (h : v.WF) : marshal v = .ok (encode v) :=
+  marshal_eq_encode v h
+
+/-- non-vacuity: the three-stream allocation of TestVLAMarshal (with resolutions), two streams
+    with different bitmasks (§7 #20) and a paused stream next to an active one (§7 #21) are valid,
+    and `encode` gives the expected bytes -/
+example : (⟨2, 3, [⟨0, 0, [150], 320, 180, 30⟩, ⟨1, 0, [240, 400], 640, 360, 30⟩,
+    ⟨2, 0, [720, 1200], 1280, 720, 30⟩], true⟩ : VLA).WF := by decide
+example : encode ⟨2, 3, [⟨0, 0, [150], 320, 180, 30⟩, ⟨1, 0, [240, 400], 640, 360, 30⟩,
+    ⟨2, 0, [720, 1200], 1280, 720, 30⟩], true⟩ =
+    [0xa1, 0x14, 0x96, 0x01, 0xf0, 0x01, 0x90, 0x03, 0xd0, 0x05, 0xb0, 0x09, 0x01, 0x3f, 0x00, 0xb3, 0x1e,
+     0x02, 0x7f, 0x01, 0x67, 0x1e, 0x04, 0xff, 0x02, 0xcf, 0x1e] := by
+  have w1 : Model.writeLeb 150 = [0x96, 0x01] := by rw [Model.writeLeb]; simp [Model.writeLeb]
+  have w2 : Model.writeLeb 240 = [0xf0, 0x01] := by rw [Model.writeLeb]; simp [Model.writeLeb]
+  have w3 : Model.writeLeb 400 = [0x90, 0x03] := by rw [Model.writeLeb]; simp [Model.writeLeb]
+  have w4 : Model.writeLeb 720 = [0xd0, 0x05] := by rw [Model.writeLeb]; simp [Model.writeLeb]
+  have w5 : Model.writeLeb 1200 = [0xb0, 0x09] := by rw [Model.writeLeb]; simp [Model.writeLeb]
+  simp [encode, bitrates, w1, w2, w3, w4, w5]
+  decide
+example : (⟨0, 2, [⟨0, 0, [100], 0, 0, 0⟩, ⟨1, 0, [200], 0, 0, 0⟩, ⟨1, 1, [300], 0, 0, 0⟩], false⟩ : VLA).WF := by
+  decide
+example : encode ⟨0, 2, [⟨0, 0, [100], 0, 0, 0⟩, ⟨1, 0, [200], 0, 0, 0⟩, ⟨1, 1, [300], 0, 0, 0⟩], false⟩ =
+      [0x10, 0x13, 0x00, 0x64, 0xc8, 0x01, 0xac, 0x02] := by
+  have w1 : Model.writeLeb 100 = [100] := by simp [Model.writeLeb]
+  have w2 : Model.writeLeb 200 = [0xc8, 0x01] := by rw [Model.writeLeb]; simp [Model.writeLeb]
+  have w3 : Model.writeLeb 300 = [0xac, 0x02] := by rw [Model.writeLeb]; simp [Model.writeLeb]
+  simp [encode, bitrates, w1, w2, w3]
+  decide
+example : (⟨0, 2, [⟨0, 0, [100], 0, 0, 0⟩], false⟩ : VLA).WF := by decide
+example : encode ⟨0, 2, [⟨0, 0, [100], 0, 0, 0⟩], false⟩ = [0x10, 0x10, 0x00, 0x64] := by
+  have w1 : Model.writeLeb 100 = [100] := by simp [Model.writeLeb]
+  simp [encode, bitrates, w1]
+  decide
+
 /-- Unmarshal, for every receiver and every byte string: no index out of range, and the reported
     number of consumed bytes never exceeds what was given (the predicate of kinds c19.dec/dec2). -/
 theorem c19_decoder_safe (r : VLA) (bs : Bytes) : Pred.C19.dec bs (unmarshal r bs) = true :=
